@@ -5,9 +5,10 @@
     gen/BitBoardTables.v; tied to the code by the correspondence check (props/c01.py).
     Specification: Chess/Spec.v (mailbox-style FIDE rules). *)
 From Coq Require Import ZArith NArith List Bool.
-From Texel Require Import Chess.Types Chess.Position Chess.BitBoard Chess.MoveGen Chess.Spec Chess.MoveGenWF
+From Texel Require Import Chess.Types Chess.Position Chess.PositionSpec Chess.PositionB Chess.BitBoard Chess.MoveGen Chess.Spec Chess.MoveGenWF
   Chess.BitBoardProofs Chess.RayProofs Chess.MagicSweep Chess.MagicProofs Chess.MoveGenProofs Chess.AttackProofs
-  Chess.SliderProofs Chess.PawnProofs Chess.PseudoProofs gen.BitBoardTables.
+  Chess.SliderProofs Chess.PawnProofs Chess.PseudoProofs Chess.MakeSpecProofs Chess.TryMoveProofs Chess.CastleProofs
+  Chess.LegalProofs Chess.ShortcutProofs Chess.IsLegalProofs gen.BitBoardTables.
 Import ListNotations.
 Local Open Scope N_scope.
 
@@ -141,36 +142,118 @@ Theorem C01_spec_reflect : forall sp m,
 Proof. exact (fun sp m => conj (legal_specb_spec sp m) (legal_moves_spec_In sp m)). Qed.
 Print Assumptions C01_spec_reflect.
 
-(** * Full statements not (yet) proved: carried by the correspondence against the Spec
+(** For every pseudo-legal move of a well-formed position: the board after makeMoveB (and
+    after makeMove) is the board of the Spec's make_spec - per move kind: quiet, capture, double
+    push, promotion, en passant, castling - and the move has the shape ([moveOk]) under which
+    the position model's make/unmake theorems (C02) apply. *)
+Theorem C01_make_spec_agrees : forall p m, WF p -> In m (pseudoLegalMoves p) ->
+  squares (fst (makeMoveB p m)) = sp_board (make_spec (abs p) m) /\ moveOk p m = true.
+Proof. exact (fun p m H Hm => match pseudo_move_good p H m Hm with conj A (conj B _) => conj A B end). Qed.
+Print Assumptions C01_make_spec_agrees.
 
-    What is proved above covers the pseudo-legal generator completely (C01_pseudo_exact), the
-    attack / in-check test (C01_inCheck) and all table geometry.  C01_legal_exact then
-    decomposes into two remaining links, both stated here:
-      (a) the make/test/unmake path of removeIllegal gives the Spec's verdict
-          (needs "squares after makeMove = board of make_spec", Position.v side), and
-      (b) the king-ray shortcut of removeIllegal / isLegal agrees with (a) (level L5 of the
-          proof plan, the only non-mechanical argument).
-    They, the evasion / capture generators and givesCheck are tied to the Spec by the
-    correspondence check on every run. *)
+(** The make / test / unmake step of removeIllegal ([tryMove]) and of isLegal ([tryMoveB]):
+    its verdict is "the mover's king is not attacked on the Spec's board after the move", which
+    for a pseudo-legal move is exactly legality under the FIDE rules (incl. castling onto an
+    attacked square, which the engine only rejects here), and the position is restored
+    (all fields; pieceTypeBB[EMPTY] is dead state).  [Consistent zk p] is C02's invariant. *)
+Theorem C01_tryMove : forall zk p m, emptyKeysZero zk -> WF p -> Consistent zk p -> In m (pseudoLegalMoves p) ->
+  snd (tryMove zk p m) = negb (in_checkb (sp_board (make_spec (abs p) m)) (whiteMove p)) /\
+  (snd (tryMove zk p m) = true <-> legal_spec (abs p) m) /\
+  normEmpty (fst (tryMove zk p m)) = normEmpty p.
+Proof.
+  exact (fun zk p m E H C Hm =>
+    conj (proj1 (tryMove_spec zk E p H C m Hm))
+         (conj (proj1 (tryMove_legal zk E p H C m Hm)) (proj2 (tryMove_legal zk E p H C m Hm)))).
+Qed.
+Print Assumptions C01_tryMove.
 
-(** (a): for a pseudo-legal move, playing it and testing the mover's king = Spec verdict,
-    and the position is restored *)
-Definition C01_tryMove_statement : Prop :=
-  forall zk p m, WF p -> In m (pseudoLegalMoves p) ->
-    snd (tryMove zk p m) = negb (in_checkb (sp_board (make_spec (abs p) m)) (whiteMove p)) /\
-    samePosition (fst (tryMove zk p m)) p.
+(** isLegal (partial form of C01_isLegal): for a pseudo-legal move its verdict is the Spec's
+    legality and the position is restored
+    - always when the side to move is in check (early "cannot help" exit and make/test/unmake),
+    - when not in check, for every non-king move that is not decided by the "moves along the
+      king's line" exit (en passant, source square not visible from the king, or directions
+      differ),
+    - and whenever the make/test/unmake path [tryMoveB] is the one taken.
+    Not covered: king moves when not in check (attack test with the king lifted from the
+    occupancy) and the same-direction exit; see C01_isLegal_statement. *)
+Theorem C01_isLegal_partial : forall zk p m, emptyKeysZero zk -> WF p -> Consistent zk p -> In m (pseudoLegalMoves p) ->
+  let ks := kingSq p (whiteMove p) in
+  (inCheck p = true ->
+     snd (isLegal p m true) = legal_specb (abs p) m /\ restoredB p (fst (isLegal p m true))) /\
+  (inCheck p = false -> mfrom m <> ks ->
+     (Z.of_N (mto m) = epSquare p \/
+      N.testbit (N.lor (rookAttacks ks (occupiedBB p)) (bishopAttacks ks (occupiedBB p))) (mfrom m) = false \/
+      getDirection ks (mfrom m) <> getDirection ks (mto m)) ->
+     snd (isLegal p m false) = legal_specb (abs p) m /\ restoredB p (fst (isLegal p m false))) /\
+  (snd (tryMoveB p m) = legal_specb (abs p) m /\ restoredB p (fst (tryMoveB p m))).
+Proof.
+  exact (fun zk p m E H C Hm =>
+    conj (isLegal_in_check zk E p H C m Hm)
+         (conj (isLegal_not_in_check_nonking zk E p H C m Hm) (tryMoveB_verdict zk E p H C m Hm))).
+Qed.
+Print Assumptions C01_isLegal_partial.
 
-(** (b): removeIllegal computes the same list as the filter that always plays the move *)
-Definition C01_shortcut_statement : Prop :=
-  forall zk p, WF p ->
-    snd (removeIllegal zk p (pseudoLegalMoves p)) =
-    filter (fun m => snd (tryMove zk p m)) (pseudoLegalMoves p).
+(** C01_legal_exact without the king-ray shortcut: filtering the pseudo-legal list with the
+    make / test / unmake verdict yields exactly the legal moves of chess. *)
+Theorem C01_legal_exact_noshortcut : forall zk p m, emptyKeysZero zk -> WF p -> Consistent zk p ->
+  (In m (filter (fun m => snd (tryMove zk p m)) (pseudoLegalMoves p)) <-> legal_spec (abs p) m).
+Proof. exact (fun zk p m E H C => legal_exact_noshortcut zk E p H C m). Qed.
+Print Assumptions C01_legal_exact_noshortcut.
 
-(** generated legal moves = legal moves of chess, without duplicates; the position is restored *)
-Definition C01_legal_exact_statement : Prop :=
-  forall zk p, WF p ->
-    let r := removeIllegal zk p (pseudoLegalMoves p) in
-    NoDup (snd r) /\ (forall m, In m (snd r) <-> legal_spec (abs p) m) /\ samePosition (fst r) p.
+(** Spec-level fact behind the engine's castling convention: with king and rook in place and
+    the squares between empty, the king's target square is attacked before castling iff the
+    king is attacked on it after castling. *)
+Theorem C01_castling_target : forall (b : board) (A : bool) (r : Z) (K R : piece),
+  length b = 64%nat -> (r = 0 \/ r = 7)%Z ->
+  has_color A K = false -> has_color A R = false -> (K =? EMPTY) = false -> (R =? EMPTY) = false ->
+  at_ b 4 r = K ->
+  (at_ b 5 r = EMPTY -> at_ b 6 r = EMPTY -> at_ b 7 r = R ->
+   attacked_by (updN (sq_of 5 r) R (updN (sq_of 7 r) EMPTY (updN (sq_of 6 r) K (updN (sq_of 4 r) EMPTY b)))) A 6 r
+   = attacked_by b A 6 r) /\
+  (at_ b 3 r = EMPTY -> at_ b 2 r = EMPTY -> at_ b 1 r = EMPTY -> at_ b 0 r = R ->
+   attacked_by (updN (sq_of 3 r) R (updN (sq_of 0 r) EMPTY (updN (sq_of 2 r) K (updN (sq_of 4 r) EMPTY b)))) A 2 r
+   = attacked_by b A 2 r).
+Proof.
+  exact (fun b A r K R Hl Hr cK cR nK nR H4 =>
+    conj (fun H5 H6 H7 => castle_attack_kingside b A r K R Hl Hr H4 H5 H6 H7 cK cR nK nR)
+         (fun H3 H2 H1 H0 => castle_attack_queenside b A r K R Hl Hr H4 H3 H2 H1 H0 cK cR nK nR)).
+Qed.
+Print Assumptions C01_castling_target.
+
+(** C01_legal_exact: the list removeIllegal computes from the pseudo-legal moves - with its
+    king-ray shortcut, for positions in check and not in check - consists of exactly the legal
+    moves of chess, is the pseudo-legal list filtered by the Spec's legality (so it inherits the
+    generator's order and multiplicities), and the position is restored. *)
+Theorem C01_legal_exact : forall zk p, emptyKeysZero zk -> WF p -> Consistent zk p ->
+  let r := removeIllegal zk p (pseudoLegalMoves p) in
+  (forall m, In m (snd r) <-> legal_spec (abs p) m) /\
+  snd r = filter (legal_specb (abs p)) (pseudoLegalMoves p) /\
+  normEmpty (fst r) = normEmpty p.
+Proof. exact legal_exact. Qed.
+Print Assumptions C01_legal_exact.
+
+(** the king-ray shortcut is sound: removeIllegal = the filter that always plays the move *)
+Theorem C01_shortcut : forall zk p, emptyKeysZero zk -> WF p -> Consistent zk p ->
+  snd (removeIllegal zk p (pseudoLegalMoves p)) = filter (fun m => snd (tryMove zk p m)) (pseudoLegalMoves p).
+Proof. exact shortcut_sound. Qed.
+Print Assumptions C01_shortcut.
+
+(** removeIllegal on ANY list of pseudo-legal moves (evasions, captures, captures-and-checks)
+    keeps exactly its legal moves and restores the position: what remains open for the
+    specialised generators is only which pseudo-legal moves they contain. *)
+Theorem C01_removeIllegal_sublist : forall zk p ml, emptyKeysZero zk -> WF p -> Consistent zk p ->
+  (forall m, In m ml -> In m (pseudoLegalMoves p)) ->
+  (forall m, In m (snd (removeIllegal zk p ml)) <-> In m ml /\ legal_spec (abs p) m) /\
+  normEmpty (fst (removeIllegal zk p ml)) = normEmpty p.
+Proof. exact removeIllegal_sublist. Qed.
+Print Assumptions C01_removeIllegal_sublist.
+
+(** * Full statements not (yet) proved: carried by the correspondence against the Spec *)
+
+(** no duplicates in the generated list (C01_legal_exact gives the set and, by the filter
+    equation, reduces this to NoDup of pseudoLegalMoves) *)
+Definition C01_nodup_statement : Prop :=
+  forall p, WF p -> NoDup (pseudoLegalMoves p).
 
 Definition C01_isLegal_statement : Prop :=
   forall p m, WF p ->
